@@ -56,6 +56,18 @@ pub fn run(ctx: &Ctx) -> Value {
             }
         }
     }
+    // zone-aware values whose wall clock lies in the one-day headroom beyond the date range: far outside the 64-bit window, a refusal
+    for (u, offsets) in [(chrono::NaiveDateTime::MAX, [1, 3600, 86_399]), (chrono::NaiveDateTime::MIN, [-1, -3600, -86_399])] {
+        for off in offsets { for sp in [1i128, NS, 3600 * NS, 86_400 * NS, 0, DUR_LIM] { for mode in ["trunc", "round", "up"] {
+            use chrono::TimeZone;
+            let z = FixedOffset::east_opt(off).unwrap().from_utc_datetime(&u);
+            let span = mk_dur(sp).unwrap();
+            tw.emit(ev("round", json!({"mode": mode, "u": ndt(u), "off": off, "span": big(sp), "naive": false}), || {
+                match (match mode { "trunc" => z.duration_trunc(span), "round" => z.duration_round(span), _ => z.duration_round_up(span) }) {
+                    Ok(q) => json!({"k": big(0), "r": {"ok": ndt(q.naive_utc())}}), Err(e) => json!({"k": big(0), "r": {"err": format!("{:?}", e)}}) } }));
+            n_round += 1;
+        } } }
+    }
     // sub-second rounding
     let mut n_sub = 0;
     let mut dts: Vec<NaiveDateTime> = Vec::new();
